@@ -170,6 +170,7 @@ def lookup_vals(pm, which, ret):
 
 
 def run_item(item):
+    item.cross_check = True      # thorough tier: discharged obligations are re-decided by cvc5
     pm = load_repo()
     name, prm = item.name, item.params
     fr = frame()
